@@ -461,3 +461,19 @@ func init() {
 	}
 	AssumedLib = append(AssumedLib, "sync/atomic Add/Load/Store/CompareAndSwap on &x.f are the plain sequential operations (no interleaving between the atomic and other accesses is modelled)")
 }
+
+func init() {
+	// crypto/rand.Read fills exactly its argument
+	libModels["crypto/rand.Read"] = func(fv *funcVerifier, st *State, call *ast.CallExpr, fn *types.Func) []smt.Term {
+		b := fv.evalExpr(st, call.Args[0])
+		key := fv.memKey(types.Typ[types.Uint8])
+		fv.instFrames(key, slArr(b))
+		fv.mut++
+		h := fv.heapGet(st, key)
+		fv.heapSet(st, key, smt.Store(h, slArr(b), fv.c.Fresh("randmem", smt.ElemSort(h.Sort))))
+		res := fv.freshResults(st, call, "rand")
+		fv.assume(st, smt.Implies(smt.Eq(res[1], smt.IntLit(0)), smt.Eq(res[0], slLen(b))))
+		return res
+	}
+	AssumedLib = append(AssumedLib, "crypto/rand.Read(b) writes only the elements of b; on nil error n == len(b)")
+}
